@@ -10,8 +10,8 @@ use std::panic::{catch_unwind, AssertUnwindSafe};
 use std::sync::{Arc, Mutex, MutexGuard};
 
 use ndarray::{
-    Array, Array1, Array2, ArrayBase, ArrayD, ArrayViewMut, Data, DimAdd, Dimension, Ix0, Ix1,
-    Ix2, IxDyn, OwnedRepr, RemoveAxis,
+    Array, Array1, Array2, ArrayBase, ArrayD, ArrayViewMut, Axis, Data, DimAdd, Dimension, Ix0, Ix1,
+    Ix2, IxDyn, OwnedRepr, RemoveAxis, ShapeBuilder,
 };
 use ndarray_interp::interp1d::{
     Interp1D, Interp1DBuilder, Interp1DStrategy, Interp1DStrategyBuilder,
@@ -461,6 +461,8 @@ struct Call {
     qy: Vec<f64>,
     /// data shape minus the interpolated axes
     trailing: Vec<usize>,
+    /// memory layout of the query arrays: 0 standard, 1 column-major, 2 every axis reversed (stride < 0)
+    qlay: u8,
 }
 
 impl Call {
@@ -523,8 +525,35 @@ fn poisoned<D: Dimension>(shape: &[usize]) -> Array<f64, D> {
         .expect("harness: buffer rank")
 }
 
-fn dyn_query(shape: &[usize], values: &[f64]) -> ArrayD<f64> {
-    ArrayD::from_shape_vec(IxDyn(shape), values.to_vec()).expect("harness: query shape")
+/// the query array with the given logical contents (row-major `values`) in memory layout `lay`
+fn dyn_query(shape: &[usize], values: &[f64], lay: u8) -> ArrayD<f64> {
+    let a = ArrayD::from_shape_vec(IxDyn(shape), values.to_vec()).expect("harness: query shape");
+    match lay {
+        1 => {
+            let mut f = ArrayD::from_elem(IxDyn(shape).f(), 0.0);
+            f.assign(&a);
+            f
+        }
+        2 => {
+            // contents stored back to front along every axis, then every axis inverted: same logical array
+            let mut r = a.clone();
+            for ax in 0..r.ndim() {
+                r.invert_axis(Axis(ax));
+            }
+            let mut r = r.as_standard_layout().into_owned();
+            for ax in 0..r.ndim() {
+                r.invert_axis(Axis(ax));
+            }
+            r
+        }
+        _ => a,
+    }
+}
+
+fn ix1_query(values: &[f64], lay: u8) -> Array1<f64> {
+    dyn_query(&[values.len()], values, if lay == 1 { 0 } else { lay })
+        .into_dimensionality::<Ix1>()
+        .expect("harness: rank 1")
 }
 
 /// a built interpolator that can be driven through any entry point
@@ -553,21 +582,21 @@ macro_rules! impl_drive_1d {
                         from_buffer(r, &buf)
                     }
                     Entry::Array => {
-                        from_array(self.interp_array(&dyn_query(&call.qshape, &call.qx)))
+                        from_array(self.interp_array(&dyn_query(&call.qshape, &call.qx, call.qlay)))
                     }
                     Entry::ArrayIx1 => {
-                        from_array(self.interp_array(&Array1::from(call.qx.clone())))
+                        from_array(self.interp_array(&ix1_query(&call.qx, call.qlay)))
                     }
                     Entry::ArrayInto => {
                         let mut buf =
                             poisoned::<<IxDyn as DimAdd<$s>>::Output>(&call.out_shape());
-                        let qs = dyn_query(&call.qshape, &call.qx);
+                        let qs = dyn_query(&call.qshape, &call.qx, call.qlay);
                         let r = self.interp_array_into(&qs, buf.view_mut());
                         from_buffer(r, &buf)
                     }
                     Entry::ArrayIntoIx1 => {
                         let mut buf = poisoned::<<Ix1 as DimAdd<$s>>::Output>(&call.out_shape());
-                        let qs = Array1::from(call.qx.clone());
+                        let qs = ix1_query(&call.qx, call.qlay);
                         let r = self.interp_array_into(&qs, buf.view_mut());
                         from_buffer(r, &buf)
                     }
@@ -601,25 +630,25 @@ macro_rules! impl_drive_2d {
                         from_buffer(r, &buf)
                     }
                     Entry::Array => from_array(self.interp_array(
-                        &dyn_query(&call.qshape, &call.qx),
-                        &dyn_query(&call.qshape, &call.qy),
+                        &dyn_query(&call.qshape, &call.qx, call.qlay),
+                        &dyn_query(&call.qshape, &call.qy, call.qlay),
                     )),
                     Entry::ArrayIx1 => from_array(self.interp_array(
-                        &Array1::from(call.qx.clone()),
-                        &Array1::from(call.qy.clone()),
+                        &ix1_query(&call.qx, call.qlay),
+                        &ix1_query(&call.qy, call.qlay),
                     )),
                     Entry::ArrayInto => {
                         let mut buf =
                             poisoned::<<IxDyn as DimAdd<$s>>::Output>(&call.out_shape());
-                        let xs = dyn_query(&call.qshape, &call.qx);
-                        let ys = dyn_query(&call.qshape, &call.qy);
+                        let xs = dyn_query(&call.qshape, &call.qx, call.qlay);
+                        let ys = dyn_query(&call.qshape, &call.qy, call.qlay);
                         let r = self.interp_array_into(&xs, &ys, buf.view_mut());
                         from_buffer(r, &buf)
                     }
                     Entry::ArrayIntoIx1 => {
                         let mut buf = poisoned::<<Ix1 as DimAdd<$s>>::Output>(&call.out_shape());
-                        let xs = Array1::from(call.qx.clone());
-                        let ys = Array1::from(call.qy.clone());
+                        let xs = ix1_query(&call.qx, call.qlay);
+                        let ys = ix1_query(&call.qy, call.qlay);
                         let r = self.interp_array_into(&xs, &ys, buf.view_mut());
                         from_buffer(r, &buf)
                     }
@@ -890,6 +919,7 @@ fn gen_case(rng: &mut Rng, cycle: &mut usize) -> Case {
             qx: Vec::new(),
             qy: Vec::new(),
             trailing: Vec::new(),
+            qlay: rng.below(3) as u8,
         },
     };
     case.call.trailing = case.shape.get(need..).unwrap_or(&[]).to_vec();
